@@ -200,8 +200,8 @@ namespace sqf::parser::sqf
                             ++iter;
                         }
 
-                        // EOF check
-                        if (is_match<'/'>(iter) && is_match<'/'>(iter + 1))
+                        // the closing marker belongs to the comment (missing when the input ends inside it)
+                        if (is_match<'*'>(iter) && is_match<'/'>(iter + 1))
                         {
                             ++iter;
                             ++iter;
